@@ -41,14 +41,14 @@ def Rule.selfForm : Rule → Bool
 
 mutual
 /-- the fragment of `rule_ref_equiv`: every pattern is capture-free (environments never matter),
-`all`/`any` carry no kind cache, an `ofRule` returns the sibling it was asked about -/
+`all`/`any` carry no kind cache -/
 def Rule.varFree : Rule → Bool
   | .pattern p _ _ => p.capFree
   | .kind _ => true
   | .regex _ => true
   | .range _ _ _ _ => true
   | .nthChild _ _ none _ => true
-  | .nthChild _ _ (some r) _ => r.varFree && r.selfForm
+  | .nthChild _ _ (some r) _ => r.varFree
   | .inside r stop _ => r.varFree && stop.varFree
   | .has r stop _ => r.varFree && stop.varFree
   | .precedes r stop => r.varFree && stop.varFree
@@ -287,7 +287,7 @@ def RAny (f : Nat) : Prop :=
   ∀ rs n env o, Rule.varFreeList rs = true → D n → anyLoop ctx f rs n env = .ok o →
     ∀ f', f ≤ f' → satAny ctx f' rs n = o.isSome
 def RFilter (f : Nat) : Prop :=
-  ∀ r cs env l, r.varFree = true → r.selfForm = true → (∀ c ∈ cs, D c) →
+  ∀ r cs env l, r.varFree = true → (∀ c ∈ cs, D c) →
     filterMapRule ctx f r cs env = .ok l → ∀ f', f ≤ f' → l = cs.filter (sat ctx f' r)
 def RFinder (f : Nat) : Prop :=
   ∀ r field eid c env res env', r.varFree = true → D c →
@@ -532,7 +532,7 @@ theorem matchRule_selfForm (f : Nat) (r : Rule) (n : Tree) (env : Env) (m : Tree
     | follows r stop => simp [Rule.selfForm] at hs
 
 theorem rr_filter_step (f : Nat) (hR : RRule ctx f) (hF : RFilter ctx f) : RFilter ctx (f + 1) := by
-  intro r cs env l hv hs hcs h f' hf
+  intro r cs env l hv hcs h f' hf
   cases cs with
   | nil => simp only [filterMapRule, Except.ok.injEq] at h; simp [← h]
   | cons c cs =>
@@ -546,7 +546,7 @@ theorem rr_filter_step (f : Nat) (hR : RRule ctx f) (hF : RFilter ctx f) : RFilt
       split at h
       · cases h
       · next rest hfr =>
-        have hrest := hF _ _ _ _ hv hs hcs' hfr f' (by omega)
+        have hrest := hF _ _ _ _ hv hcs' hfr f' (by omega)
         simp only [Except.ok.injEq] at h
         cases m with
         | none =>
@@ -554,8 +554,6 @@ theorem rr_filter_step (f : Nat) (hR : RRule ctx f) (hF : RFilter ctx f) : RFilt
           simp only [Option.isSome_none] at hsat
           rw [List.filter_cons, hsat, ← h, hrest]; simp
         | some x =>
-          have := matchRule_selfForm ctx f r c env x env1 hs hm
-          subst this
           simp only at h
           simp only [Option.isSome_some] at hsat
           rw [List.filter_cons, hsat, ← h, hrest]; simp
@@ -1052,7 +1050,7 @@ theorem rr_rule_step (hyp : RefHyp ctx) (f : Nat) (hR : RRule ctx f) (hAl : RAll
             cases hm : isMatched a b index <;> rw [hm] at h <;>
               simp only [Except.ok.injEq, Prod.mk.injEq] at h <;> simp [← h.1]
     | some rule =>
-      have hv' : rule.varFree = true ∧ rule.selfForm = true := by
+      have hv' : rule.varFree = true := by
         simpa [Rule.varFree] using hv
       simp only [matchRule] at h
       simp only [sat]
@@ -1072,7 +1070,7 @@ theorem rr_rule_step (hyp : RefHyp ctx) (f : Nat) (hR : RRule ctx f) (hAl : RAll
         · rw [hfm] at h; cases h
         · rw [hfm] at h
           simp only at h
-          have hk0 := hFi _ _ _ _ hv'.1 hv'.2 hnamedD hfm k hk
+          have hk0 := hFi _ _ _ _ hv' hnamedD hfm k hk
           rw [← hk0]
           generalize hkids : (if reverse = true then kids0.reverse else kids0) = kids at h ⊢
           have hsub : ∀ c ∈ kids, c ∈ parent.children ∧ sat ctx k rule c = true := by
@@ -1120,7 +1118,7 @@ theorem rr_rule_step (hyp : RefHyp ctx) (f : Nat) (hR : RRule ctx f) (hAl : RAll
                 · simp only [Except.ok.injEq, Prod.mk.injEq] at h; simp [← h.1]
                 · next env1 hmr =>
                   exfalso
-                  have hs := hR _ _ _ _ _ hv'.1 hn hmr k hk
+                  have hs := hR _ _ _ _ _ hv' hn hmr k hk
                   simp only [Option.isSome_none] at hs
                   obtain ⟨c, hc, hcid⟩ := indexById_mem hidx
                   obtain ⟨hc1, hc2⟩ := hsub c hc
@@ -1239,7 +1237,7 @@ theorem all_rr (hyp : RefHyp ctx) (f : Nat) :
     · intro r n env res env' _ _ h; simp [matchRule] at h
     · intro rs n env b env' _ _ h; simp [allLoop] at h
     · intro rs n env o _ _ h; simp [anyLoop] at h
-    · intro r cs env l _ _ _ h; simp [filterMapRule] at h
+    · intro r cs env l _ _ h; simp [filterMapRule] at h
     · intro r field eid c env res env' _ _ h; simp [finderStep] at h
     · intro r field eid cs env res env' _ _ h; simp [findMapRule] at h
     · intro r s field eid st cs env res env' _ _ _ h; simp [findMapUntil] at h
